@@ -1148,7 +1148,9 @@ impl JsValue {
         }
 
         // 3. Let int be the mathematical value whose sign is the sign of number and whose magnitude is floor(abs(ℝ(number))).
-        let int = number.abs().floor().copysign(number) as i64;
+        //    NOTE: reducing modulo 2^32 first keeps every low bit exact; a direct `as i64` cast
+        //    would saturate for magnitudes of 2^63 and above.
+        let int = i64::from(f64_to_int32(number));
 
         // 4. Let int8bit be int modulo 2^8.
         let int_8_bit = int % 2i64.pow(8);
@@ -1177,7 +1179,9 @@ impl JsValue {
         }
 
         // 3. Let int be the mathematical value whose sign is the sign of number and whose magnitude is floor(abs(ℝ(number))).
-        let int = number.abs().floor().copysign(number) as i64;
+        //    NOTE: reducing modulo 2^32 first keeps every low bit exact; a direct `as i64` cast
+        //    would saturate for magnitudes of 2^63 and above.
+        let int = i64::from(f64_to_int32(number));
 
         // 4. Let int8bit be int modulo 2^8.
         let int_8_bit = int % 2i64.pow(8);
@@ -1249,7 +1253,9 @@ impl JsValue {
         }
 
         // 3. Let int be the mathematical value whose sign is the sign of number and whose magnitude is floor(abs(ℝ(number))).
-        let int = number.abs().floor().copysign(number) as i64;
+        //    NOTE: reducing modulo 2^32 first keeps every low bit exact; a direct `as i64` cast
+        //    would saturate for magnitudes of 2^63 and above.
+        let int = i64::from(f64_to_int32(number));
 
         // 4. Let int16bit be int modulo 2^16.
         let int_16_bit = int % 2i64.pow(16);
@@ -1278,7 +1284,9 @@ impl JsValue {
         }
 
         // 3. Let int be the mathematical value whose sign is the sign of number and whose magnitude is floor(abs(ℝ(number))).
-        let int = number.abs().floor().copysign(number) as i64;
+        //    NOTE: reducing modulo 2^32 first keeps every low bit exact; a direct `as i64` cast
+        //    would saturate for magnitudes of 2^63 and above.
+        let int = i64::from(f64_to_int32(number));
 
         // 4. Let int16bit be int modulo 2^16.
         let int_16_bit = int % 2i64.pow(16);
